@@ -219,10 +219,6 @@ Proof.
   apply sys_transfer_spec in H. destruct H as (Hsys & Hwp & _ & Hsig & Hal & Hle & Hown & Hn3 & Hg3).
   rewrite !Hg2, !Hg1, !key_eqb_refl in *. cbn [alen lamports owner RecordSet.set] in *. proj_simpl.
   destruct Hsig as [Hsig|Hsig]; [|unfold pda_signs in Hsig; cbn in Hsig; discriminate].
-  assert (outstanding_relay (d <| d_writeoff_enabled := true |> <| d_wo_start := N.of_nat (length l1) |>
-            <| d_wo_end := sat_add two32 (N.of_nat (length l1)) (ceil8 (d_total_validators d)) |>) = outstanding_relay d) as Eout
-    by reflexivity.
-  rewrite Eout in *.
   lazymatch goal with
   | _ : data (get W (mkey mc)) = DConfig ?c, _ : data (get W (mkey md)) = DDist ?d ?tail |- _ =>
     exists c, (mkey md), d, tail, (mkey m), (rent (alen (get W (mkey md)) + ceil8 (d_total_validators d)) - (lamports (get W (mkey md)) - outstanding_relay d)) end.
@@ -392,3 +388,56 @@ Section FinalizeDebtCorollaries.
     - rewrite (L1 Eq). lia.
   Qed.
 End FinalizeDebtCorollaries.
+
+(* ================================================================================================ non-vacuity *)
+Definition ex_rewards : list leafdata := [LReward (KUser 21) 400000000 0; LReward (KUser 22) 600000000 100000000].
+Definition ex_dist5r : dist := ex_dist5 <| d_rewards_root := tree_root PRE_REWARD ex_rewards |> <| d_total_contributors := 2 |>.
+Definition ex_grow_world (d : dist) (extra_lamports : N) : world := ex_world [
+  (KRdConfig, ex_acct (rent LEN_CONFIG_ALLOC) LEN_CONFIG_ALLOC (DConfig ex_cfg));
+  (KRdDist 5, ex_acct (rent (LEN_DIST + 1) + extra_lamports) (LEN_DIST + 1) (DDist d [0]));
+  (KUser 1, ex_wallet 1000000)].
+
+Example rd_finalize_rewards_nonvacuous :
+  let cx := ex_cx KRd [mk KRdConfig false false; mk (KRdDist 5) false true; mk (KUser 1) true true; mk KSystem false false] in
+  exists W', rd_finalize_rewards cx (ex_grow_world ex_dist5r 0) = Ok W' /\
+    get W' (KRdDist 5) = ex_acct (rent (LEN_DIST + 2) + 2 * 6000) (LEN_DIST + 2) (DDist (fr_dist ex_dist5r [0]) [0; 0]) /\
+    lamports (get W' (KUser 1)) = 1000000 - (2 * 6000 + 6960) /\
+    covered (get W' (KRdDist 5)) (fr_dist ex_dist5r [0]) /\
+    outstanding_relay (fr_dist ex_dist5r [0]) = 12000.
+Proof. eexists. split; [vm_compute; reflexivity|]. unfold covered. vm_compute. repeat split; discriminate. Qed.
+
+Example rd_enable_write_off_nonvacuous :
+  let cx := ex_cx KRd [mk KRdConfig false false; mk (KRdDist 5) false true; mk (KUser 1) true true; mk KSystem false false] in
+  let d := fr_dist ex_dist5r [0] in     (* rewards finalized, 2 x 6000 relay lamports prepaid and still in the account *)
+  exists W', rd_enable_write_off cx (ex_grow_world d 12000) = Ok W' /\
+    get W' (KRdDist 5) = ex_acct (rent (LEN_DIST + 2) + 12000) (LEN_DIST + 2) (DDist (ew_dist d [0]) [0; 0]) /\
+    lamports (get W' (KUser 1)) = 1000000 - 6960 /\
+    covered (get W' (KRdDist 5)) (ew_dist d [0]).
+Proof. eexists. split; [vm_compute; reflexivity|]. unfold covered. vm_compute. repeat split; discriminate. Qed.
+
+Example rd_finalize_debt_nonvacuous :
+  let cx := ex_cx KRd [mk KRdConfig false false; mk (KUser 2) true false; mk (KRdDist 5) false true; mk (KUser 1) true true;
+                       mk KSystem false false] in
+  let d := ex_dist5 <| d_debt_final := false |> <| d_debt_end := 0 |> in
+  let d0 := d <| d_total_debt := 0 |> in
+  (exists W', rd_finalize_debt cx (ex_grow_world d 0) = Ok W' /\
+     get W' (KRdDist 5) = ex_acct (rent (LEN_DIST + 2)) (LEN_DIST + 2) (DDist (fd_dist d [0]) [0; 0]) /\
+     lamports (get W' (KUser 1)) = 1000000 - 6960 /\ d_debt_start (fd_dist d [0]) = 1 /\ d_debt_end (fd_dist d [0]) = 2) /\
+  (exists W', rd_finalize_debt cx (ex_grow_world d0 0) = Ok W' /\
+     get W' (KRdDist 5) = ex_acct (rent (LEN_DIST + 1)) (LEN_DIST + 1) (DDist (d0 <| d_debt_final := true |>) [0]) /\
+     lamports (get W' (KUser 1)) = 1000000).
+Proof. split; eexists; (split; [vm_compute; reflexivity|]); vm_compute; repeat split. Qed.
+
+(* The unconditional statement "cover before => cover after" is FALSE for finalize-debt in worlds where rewards were
+   finalized before the debt (d_rewards_final = true, d_debt_final = false; no instruction sequence produces such a
+   distribution because finalize-rewards requires d_debt_final): the top-up only restores bare rent of the new size. *)
+Example finalize_debt_cover_without_invariant_refuted :
+  let cx := ex_cx KRd [mk KRdConfig false false; mk (KUser 2) true false; mk (KRdDist 5) false true; mk (KUser 1) true true;
+                       mk KSystem false false] in
+  let d := ex_dist5r <| d_debt_final := false |> <| d_debt_end := 0 |> <| d_rewards_final := true |> in
+  let W := ex_grow_world d 12000 in
+  covered (get W (KRdDist 5)) d /\
+  exists W', rd_finalize_debt cx W = Ok W' /\ data (get W' (KRdDist 5)) = DDist (fd_dist d [0]) [0; 0] /\
+             ~ covered (get W' (KRdDist 5)) (fd_dist d [0]).
+Proof. split; [unfold covered; vm_compute; discriminate|]. eexists. split; [vm_compute; reflexivity|]. split; [vm_compute; reflexivity|].
+  unfold covered. vm_compute. intros H. apply H. reflexivity. Qed.
